@@ -102,7 +102,7 @@ def main():
                     r["status"] = "survived"; r["inconclusive"] = []
                     for c in order:
                         rc, out = sh([f"{d}/target/release/vcheck", c, "quick"], cwd=f"{d}/harness",
-                                     env={"VERIF_JOBS": jobs, "VERIF_SEED": "1", "VERIF_SCRATCH_TAG": f"mut{k}"}, timeout=1200)
+                                     env={"VERIF_JOBS": jobs, "VERIF_SEED": "1", "VERIF_OUT_DIR": f"{d}/out"}, timeout=1200)
                         if rc == 1 and "VIOLATION" in out:
                             r["status"] = "killed"; r["by"] = c
                             s = re.search(r"signature: (.*)", out)
